@@ -795,6 +795,61 @@ def tr_hash128(fn):
 
 
 # ---------------------------------------------------------------------------------------------
+# where opcodes come from: symbol::symbol / symbol::opc_count_
+# ---------------------------------------------------------------------------------------------
+def tr_opcode_counter(ix):
+    ctors = [n for i, n in ix.funcs.items() if n.get("kind") == "CXXConstructorDecl" and
+             ix.info[i]["record"] == "symbol" and SP.has_body(n) and not n.get("isImplicit")]
+    if len(ctors) != 1:
+        raise Refuse("symbol: exactly one user-provided constructor expected, found %d" % len(ctors))
+    inits = [c for c in ctors[0].get("inner", []) if c.get("kind") == "CXXCtorInitializer" and
+             c.get("anyInit", {}).get("name") == "opcode_"]
+    if len(inits) != 1:
+        raise Refuse("symbol::symbol does not initialise opcode_ in its initialiser list")
+    e = peel(inner(inits[0])[0])
+    if e.get("kind") != "UnaryOperator" or e.get("opcode") != "++" or ref_name(inner(e)[0]) != "opc_count_":
+        raise Refuse("opcode_ is not initialised with opc_count_++ / ++opc_count_")
+    post = bool(e.get("isPostfix"))
+    cid = peel(inner(e)[0]).get("referencedDecl", {}).get("id")
+    t = bare(dq(e))
+    if t not in UNSIGNED:
+        raise Refuse("opcode_t is %r: the counter model needs an unsigned type (wrap-around)" % t)
+    # the definition of the static member and its initial value
+    defs = [v for v in ix.vars.values() if v["node"].get("name") == "opc_count_" and inner(v["node"])]
+    if len(defs) != 1:
+        raise Refuse("definition of symbol::opc_count_ not found")
+    init = int_lit(inner(defs[0]["node"])[0])
+    if init is None:
+        raise Refuse("symbol::opc_count_ is not initialised with a literal")
+    ids = {i for i, v in ix.vars.items() if v["node"].get("name") == "opc_count_"}
+    if not any(v["node"].get("storageClass") == "static" for v in ix.vars.values() if v["node"].get("name") == "opc_count_"):
+        raise Refuse("symbol::opc_count_ is not a static data member")
+    # nobody else touches the counter or assigns opcode_
+    uses = 0
+    for i, n in ix.funcs.items():
+        if ix.info[i]["dependent"] or not SP.has_body(n):
+            continue
+        for d in SP_find(n, lambda x: x.get("kind") == "DeclRefExpr" and x.get("referencedDecl", {}).get("id") in ids):
+            uses += 1
+        for m in SP_find(n, lambda x: x.get("kind") in ("BinaryOperator", "CompoundAssignOperator") and
+                         x.get("opcode", "").endswith("=") and x.get("opcode") not in ("==", "!=", "<=", ">=") and
+                         peel(inner(x)[0]).get("kind") == "MemberExpr" and peel(inner(x)[0]).get("name") == "opcode_"):
+            raise Refuse("opcode_ is assigned in %s" % ix.info[i]["name"])
+    if uses != 1:
+        raise Refuse("symbol::opc_count_ is used %d times in the translation unit (expected: once, in the constructor)" % uses)
+    return "⟨%d, %s, %d⟩" % (init, "true" if post else "false", UNSIGNED[t])
+
+
+def SP_find(n, pred, out=None):
+    out = [] if out is None else out
+    if pred(n):
+        out.append(n)
+    for c in inner(n):
+        SP_find(c, pred, out)
+    return out
+
+
+# ---------------------------------------------------------------------------------------------
 def translate():
     ix = SP.Ix(SP.load_ast())
     out = {}
@@ -809,6 +864,7 @@ def translate():
     m["fmixBody"] = tr_fmix(find_fn(ix, "murmurhash3::fmix", lambda n: bare(SP.qual(n)).startswith("unsigned long (")))
     m["getBlockBytes"] = tr_get_block(find_fn(ix, "murmurhash3::get_block"))
     out["murmur"] = m
+    out["opcodeCounter"] = tr_opcode_counter(ix)
     return out
 
 
@@ -822,6 +878,8 @@ def emit(path):
          "open Vita.C03.PackSyn Vita.C03.USyn", "",
          "/-- `i_mep::pack` (src/kernel/gp/mep/i_mep.cc) -/",
          "def pack : PStm :=\n  %s" % o["pack"], "",
+         "/-- `symbol::symbol`: `opcode_(opc_count_++)`, `opcode_t symbol::opc_count_(0)` (src/kernel/gp/symbol.cc) -/",
+         "def opcodeCounter : CounterSyn := %s" % o["opcodeCounter"], "",
          "/-- `i_mep::hash` -/", "def mepHash : MepHashSyn := %s" % o["mepHash"], "",
          "/-- `i_ga::hash`, `i_de::hash` -/", "def gaHash : VecHashSyn := %s" % o["gaHash"],
          "def deHash : VecHashSyn := %s" % o["deHash"], "",
@@ -851,6 +909,7 @@ def emit(path):
             f.write(txt)
     return {"changed": old is not None and old != txt, "pack": o["pack"], "mepHash": o["mepHash"],
             "teamHash": o["teamHash"], "gaHash": o["gaHash"], "deHash": o["deHash"],
+            "opcodeCounter": o["opcodeCounter"],
             "murmur_statements": len(m["init"]) + len(m["loopBody"]) + len(m["final"]) + len(m["tailInit"]) +
             sum(len(ss) for _, ss in m["cases"]), "murmur_cases": len(m["cases"])}
 
